@@ -30,6 +30,9 @@ pub struct TreeCase {
 pub struct HistoryCase {
     pub ietf: bool,
     pub batches: Vec<Vec<Hex>>,
+    /// extra reset() calls before batch k (the server resets both trees on every loop pass, also when nothing was queued)
+    #[serde(default)]
+    pub idle: Vec<u32>,
 }
 
 /// deterministic leaves for the exhaustive parts: distinct, varying length (incl. empty for k = 0)
@@ -89,7 +92,16 @@ fn leaves_strategy() -> impl Strategy<Value = Vec<Hex>> {
                         v[n / 2] = a;
                     }
                 }
-                _ => {}
+                // all distinct but sharing a long common prefix (distinguished only beyond byte 64)
+                _ => {
+                    let plen = 64 + v.len() % 37;
+                    for (i, l) in v.iter_mut().enumerate() {
+                        let mut x = vec![0xa5u8; plen];
+                        x.extend_from_slice(&(i as u16).to_le_bytes());
+                        x.extend_from_slice(&l.0);
+                        l.0 = x;
+                    }
+                }
             }
             v
         })
@@ -101,7 +113,11 @@ fn tree_case() -> impl Strategy<Value = TreeCase> {
 }
 
 fn history_case() -> impl Strategy<Value = HistoryCase> {
-    (any::<bool>(), proptest::collection::vec(leaves_strategy(), 2..=8)).prop_map(|(ietf, batches)| HistoryCase { ietf, batches })
+    let idle = prop_oneof![6 => Just(0u32), 2 => 1u32..=3, 2 => prop::sample::select(IDLE_COUNTS.to_vec()), 1 => 0u32..=600];
+    (any::<bool>(), proptest::collection::vec((leaves_strategy(), idle), 2..=8)).prop_map(|(ietf, b)| {
+        let (batches, idle) = b.into_iter().unzip();
+        HistoryCase { ietf, batches, idle }
+    })
 }
 
 struct Built {
@@ -275,14 +291,29 @@ pub fn binding(ctx: &mut Ctx, ietf: bool, leaves: &[Hex], i: usize, bit: u16, ki
     Ok(())
 }
 
+/// numbers of consecutive resets around the wrap-around points of 8- and 16-bit counters
+const IDLE_COUNTS: [u32; 19] = [126, 127, 128, 253, 254, 255, 256, 257, 258, 510, 511, 512, 513, 1023, 1024, 65_534, 65_535, 65_536, 65_537];
+
 pub fn reuse(ctx: &mut Ctx, ietf: bool, batches: &[Vec<Hex>], kind: &str) -> Res {
+    reuse_idle(ctx, ietf, batches, &[], kind)
+}
+
+pub fn reuse_idle(ctx: &mut Ctx, ietf: bool, batches: &[Vec<Hex>], idle: &[u32], kind: &str) -> Res {
     let mut tree = MerkleTree::new(ver(ietf));
     let mut prev_n = 0usize;
     let mut nt = false;
     for (k, leaves) in batches.iter().enumerate() {
         ctx.eval();
-        if let Err(p) = no_unwind(|| tree.reset()) {
+        let extra = idle.get(k).copied().unwrap_or(0);
+        if let Err(p) = no_unwind(|| {
+            for _ in 0..=extra {
+                tree.reset()
+            }
+        }) {
             return ctx.fail("reset-panic", p);
+        }
+        if extra > 0 && !tree.is_empty() {
+            return ctx.fail("not-empty-after-reset", format!("is_empty() is false after {} resets", extra + 1));
         }
         let reused = match build_on(&mut tree, leaves) {
             Ok(b) => b,
@@ -307,7 +338,7 @@ pub fn reuse(ctx: &mut Ctx, ietf: bool, batches: &[Vec<Hex>], kind: &str) -> Res
                 _ => return ctx.fail("reuse-proof-invalid", format!("batch {} position {}", k, i)),
             }
         }
-        if k > 0 && prev_n > leaves.len() {
+        if k > 0 && (prev_n > leaves.len() || extra >= 100) {
             nt = true;
         }
         prev_n = leaves.len();
@@ -332,6 +363,14 @@ struct PairCase {
     salt: u32,
     ietf: bool,
     a: usize,
+    b: usize,
+}
+#[derive(Debug, Clone, Serialize, Deserialize)]
+struct IdleCase {
+    salt: u32,
+    ietf: bool,
+    a: usize,
+    idle: u32,
     b: usize,
 }
 #[derive(Debug, Clone, Serialize, Deserialize)]
@@ -399,6 +438,20 @@ pub fn run(ctx: &mut Ctx) -> Vec<Violation> {
     };
     out.extend(v);
 
+    // a batch, then many passes with nothing queued, then another batch
+    {
+        let mut cases = vec![];
+        for ietf in [false, true] {
+            for a in [2usize, 4, 5, 64] {
+                for idle in IDLE_COUNTS {
+                    for b in [1usize, 2, 3, 64] {
+                        cases.push(IdleCase { salt, ietf, a, idle, b });
+                    }
+                }
+            }
+        }
+        out.extend(run_enum(ctx, "reuse-idle", cases.len() as u64, |k| cases[k as usize].clone(), |ctx, c| reuse_idle(ctx, c.ietf, &[det_leaves(c.salt, c.a), det_leaves(c.salt ^ 1, c.b)], &[0, c.idle], "idle")));
+    }
     // random leaves: completeness + binding at a generated position
     out.extend(run_prop(ctx, "random-tree", t.pick(20_000, 200_000), 400, tree_case(), |ctx, c| {
         ctx.sample("random-tree", 2, &c.leaves.iter().take(4).collect::<Vec<_>>());
@@ -409,7 +462,7 @@ pub fn run(ctx: &mut Ctx) -> Vec<Violation> {
     // random histories on one reused tree
     out.extend(run_prop(ctx, "history", t.pick(10_000, 100_000), 400, history_case(), |ctx, c| {
         ctx.sample("history", 2, &c.batches.iter().map(|b| b.len()).collect::<Vec<_>>());
-        reuse(ctx, c.ietf, &c.batches, "hist")
+        reuse_idle(ctx, c.ietf, &c.batches, &c.idle, "hist")
     }));
     out
 }
@@ -423,7 +476,8 @@ pub fn replay(ctx: &mut Ctx, sub: &str, case: &Value) -> Res {
             completeness(ctx, c.ietf, &c.leaves, "replay")?;
             binding(ctx, c.ietf, &c.leaves, idx(c.pick, c.leaves.len()), c.bit, "replay")
         }),
-        "history" => replay_case::<HistoryCase, _>(ctx, case, |ctx, c| reuse(ctx, c.ietf, &c.batches, "replay")),
+        "history" => replay_case::<HistoryCase, _>(ctx, case, |ctx, c| reuse_idle(ctx, c.ietf, &c.batches, &c.idle, "replay")),
+        "reuse-idle" => replay_case::<IdleCase, _>(ctx, case, |ctx, c| reuse_idle(ctx, c.ietf, &[det_leaves(c.salt, c.a), det_leaves(c.salt ^ 1, c.b)], &[0, c.idle], "replay")),
         _ => Err(viol("bad-replay-file", format!("unknown sub {}", sub))),
     }
 }
